@@ -170,9 +170,20 @@ func c08Play(w *c08World, steps []c08Step, onlyLast bool) (viol string, key stri
 	qs := c08Queries()
 	live := make([]*updog.Query, len(qs))
 	exprs := make([]updog.Expression, len(qs))
+	// the group-by lists of all Query values are slices of ONE array, each with spare capacity that reaches into the
+	// lists of the following ones (what `dims[:1]`, `dims[:2]` of a drill-down gives a caller): an execution that appends
+	// to the caller's slice instead of copying it rewrites a sibling query
+	var arena []string
+	for _, q := range qs {
+		arena = append(arena, q.GroupBy...)
+	}
+	arena = append(arena, "\x00sentinel0", "\x00sentinel1", "\x00sentinel2", "\x00sentinel3")
+	arena0 := append([]string{}, arena...)
+	off := 0
 	for i, q := range qs {
 		exprs[i] = q.Expr.Updog()
-		live[i] = &updog.Query{Expr: exprs[i], GroupBy: append([]string{}, q.GroupBy...)}
+		live[i] = &updog.Query{Expr: exprs[i], GroupBy: arena[off : off+len(q.GroupBy)]}
+		off += len(q.GroupBy)
 	}
 	type held struct {
 		res  *updog.Result
@@ -219,6 +230,9 @@ func c08Play(w *c08World, steps []c08Step, onlyLast bool) (viol string, key stri
 		}
 		if want := w.alone[st.Q][st.I]; got != want {
 			return fmt.Sprintf("step %d (query %d on index %d) returned %s; a freshly constructed equal query returns %s", n+1, st.Q, st.I, got, want), ""
+		}
+		if !reflect.DeepEqual(arena, arena0) {
+			return fmt.Sprintf("step %d wrote into the array behind the caller's GroupBy slices: %q instead of %q", n+1, arena, arena0), ""
 		}
 		for i, q := range qs {
 			if live[i].Expr != exprs[i] || live[i].Expr.String() != q.Expr.Updog().String() {
